@@ -21,6 +21,9 @@ ASSUMPTIONS = ["every command of a history looks at the same trash directories (
 FMT = '%Y-%m-%dT%H:%M:%S'
 
 
+RULE += ' Since round 8: trash-rm steps whose payload removals are all refused (nothing purged, everything still listed); non-sticky .Trash modes include 0700/0750.'
+
+
 def gen_history(rng, maxlen):
     lay = scen.Layout(rng, nested=False, home_on_own_volume=False, xdg='unset')
     for v in lay.all_vols:                        # usable trash dirs everywhere
@@ -102,8 +105,13 @@ def gen_history(rng, maxlen):
         elif r < 0.85:
             # (a pattern with a slash that is not its first character is compared with base names, which have none: it selects nothing)
             pat = rng.choice(['a', 'foo*', '*.txt', '*', '/home/u/d/*', 'é', '?', 'zzz', lay.vols[0] + '/*' if lay.vols else '/x', '*d/a', '*/foo.txt', '*u/*', 'd/e/*'])
-            steps.append({'cmd': 'rm', 'argv': [pat]})
-            plan.append(('rm', pat))
+            st = {'cmd': 'rm', 'argv': [pat]}
+            if rng.random() < 0.15:
+                # the file system refuses the removal of every payload (a read-only bind, immutable files): whatever trash-rm says then,
+                # nothing was purged and every entry is still listed
+                st['plan'] = {'faults': {'remove': {'errno': 13, 'path': '/files/'}, 'rmtree': {'errno': 13, 'path': '/files/'}}}
+            steps.append(st)
+            plan.append(('rm', pat) if 'plan' not in st else ('rm-refused', pat))
         else:
             days = rng.choice([None, 0, 1, 2, 5])
             now = t + datetime.timedelta(seconds=1)
@@ -115,7 +123,9 @@ def gen_history(rng, maxlen):
                 fname = 'fresh%d' % k
                 fdate = now.strftime(FMT)
                 # (midfs: right after the k-th removal; midlib: right after the k-th library operation, e.g. between two listings)
+                # (like the real trash-put, it makes sure that info/ and files/ exist first)
                 st['plan'] = {rng.choice(['midfs', 'midlib', 'midlib']): {'after': 0, 'ops': [
+                    ['mkdir', lay.home_trash + '/info', 0o700], ['mkdir', lay.home_trash + '/files', 0o700],
                     ['write', lay.home_trash + '/info/' + fname + '.trashinfo', scen.TI % (scen.quote('/was/' + fname), fdate)],
                     ['write', lay.home_trash + '/files/' + fname, 'fresh payload']]}}
                 for kk, vv in st['plan'].items():
@@ -146,7 +156,7 @@ def judge(run, scn, plan, res, section='history'):
     for k, (st, pl, o) in enumerate(zip(scn['steps'], plan, res['steps'])):
         case = {'scenario': {**scn, 'steps': scn['steps'][:k + 1]}, 'step': k, 'command': [st['cmd'], st['argv'], st.get('stdin')], 'exit': o['exit'],
                 'stderr': o['stderr'][-300:], 'bag': bag[:12]}
-        if o['exc']:
+        if o['exc'] and pl[0] != 'rm-refused':      # (trash-rm does end with a traceback when a removal is refused: C16's business, not the listing's)
             run.fail('oracle', 'a command of the history ended with a traceback', case, key='traceback', section=section)
             return
         if pl[0] == 'init':
@@ -156,6 +166,8 @@ def judge(run, scn, plan, res, section='history'):
                 run.fail('oracle', 'trash-list does not show exactly the entries present in the usable trash directories',
                          dict(case, listed=got[:12], expected=sorted(bag)[:12]), key='list-differs-from-bag', section=section)
                 return
+        elif pl[0] == 'rm-refused':
+            pass                          # no payload could be removed: nothing was purged, the bag stays as it was
         elif pl[0] == 'put':
             if pl[1] in snap and o['exit'] == 0:
                 bag.append((pl[2].strftime('%Y-%m-%d %H:%M:%S'), pl[1]))
@@ -269,13 +281,13 @@ def replay(run, payload):
         elif st['cmd'] == 'restore':
             plan.append(('restore', st['argv'][0], (st.get('stdin') or '').rstrip('\n'), bool((st.get('plan') or {}).get('faults'))))
         elif st['cmd'] == 'rm':
-            plan.append(('rm', st['argv'][0]))
+            plan.append(('rm', st['argv'][0]) if not (st.get('plan') or {}).get('faults') else ('rm-refused', st['argv'][0]))
         elif st['cmd'] == 'empty':
             d = [a for a in st['argv'] if a.isdigit()]
             fresh = None
             for vv in (st.get('plan') or {}).values():
-                if isinstance(vv, dict) and vv.get('ops') and vv['ops'][0][0] == 'write':
-                    fname = os.path.basename(vv['ops'][1][1])
+                if isinstance(vv, dict) and vv.get('ops') and vv['ops'][-1][0] == 'write' and '/files/' in vv['ops'][-1][1]:
+                    fname = os.path.basename(vv['ops'][-1][1])
                     fresh = (fname, st['env']['TRASH_DATE'].replace('T', ' '), '/was/' + fname)
             plan.append(('empty', int(d[0]) if d else None, datetime.datetime.strptime(st['env']['TRASH_DATE'], FMT), fresh))
         else:
